@@ -785,7 +785,7 @@ pub fn run_shard(ctx: &ShardCtx, rep: &mut Report) {
     crate::engine::discard_stderr();
     let total: u64 = match ctx.tier {
         Tier::Quick => ctx.scaled(1400) as u64,
-        Tier::Thorough => ctx.scaled(60_000) as u64,
+        Tier::Thorough => ctx.scaled(150_000) as u64,
     };
     for i in 0..total {
         if !ctx.mine(i) {
